@@ -12,6 +12,8 @@ NOTE = ("Trusted: z3 5.1 (sampled/complete cross-check by cvc5 1.4), the symnp e
 
 CHECKS = {
     # id: (design_ref, technique, extra level text)
+    "C04": ("3/C04", "symbolic execution of the CVaR filter: real-mode NRA obligations over values/flags/percentile plus a Float64 (z3 FP theory) run of int(p*n) for every double p", ""),
+    "C05": ("3/C05", "symbolic execution of the sort filter (argsort forks over orders); tie-robust rank-window obligations decided by z3", ""),
     "C01": ("3/C01", "symbolic execution of EnsembleEvaluator.calculate on z3-backed arrays; per-path NRA obligations decided by z3 (cvc5 cross-check)", ""),
 }
 NOT_APPLICABLE = {}
